@@ -17,6 +17,9 @@ Decided (structural necessary conditions, for every history):
   drg-exact  every generator draws its keystream in ONE request over exactly the bytes it delivers (no draw in a loop,
              no partially used block): later requests cannot depend on how earlier ones were sized
   block-eq   set_counter, increment and the 64-bit carry of the engine actually built, as value graphs (shared with C03)
+  shape-eval process_mut of all five ciphers for every offset 0..64 and the lengths around zero, one and two refills (all
+             lengths < 131 in the thorough tier, plus the lengths around every constant the code names), update opaque:
+             data[i] ^= KS[i] for every i and the engine is left positioned at KS[len] (lazy or eager refill alike)
 Not decided: the keystream values themselves (C03), offset-interval induction (tier 2)."""
 import re
 
